@@ -588,3 +588,42 @@ Proof.
   all: try (destruct w as [|w]; reflexivity); try (destruct c as [|c]; reflexivity);
        try (destruct its; reflexivity).
 Qed.
+
+(** ** One awaiting chain per promise
+
+    A promise channel carries one result; [wf_items] says (among other things) that no promise is the
+    inner promise of two chains or twice of one — what api-fu's callers of chain / join guarantee by
+    obtaining a fresh promise from the getter for every chain.  Hence in no reachable state do two
+    chain / join goroutines wait for the same promise. *)
+Theorem one_reader_per_promise (p : prog) (WF : wf_items p = true) (BF : bfun_ok p) fx tr s c1 c2 j1 j2 v1 v2 q :
+  run fx p init tr = Some s ->
+  st_gor s c1 = GWaiting j1 v1 -> st_gor s c2 = GWaiting j2 v2 ->
+  nth_error (inner_of p c1) j1 = Some q -> nth_error (inner_of p c2) j2 = Some q -> c1 = c2.
+Proof.
+  intros _ _ _ N1 N2. apply (inner_unique p WF c1 c2 q); eapply nth_error_In; eauto.
+Qed.
+
+(** The shape of the seeded change "memoized edge resolver call on the zero-count path": totalCount
+    and pageInfo chain onto the SAME getter promise (items 1 and 2 both have inner promise 0; not
+    [wf_items]).  One chain takes the result, the other waits for ever: the handler is blocked in
+    its receive, promise 2 is awaited, no forced label is enabled. *)
+Definition share_prog : prog :=
+  mkProg [mkItem KGo None true (ROk 0); mkItem (KChain [0]) None false (ROk 1); mkItem (KChain [0]) None false (ROk 2)]
+         (fun _ l => map (fun _ => ROk 0) l) (fun c _ => ROk (Z.of_nat c)).
+
+Definition share_trace : list label :=
+  [LCreate 0; LCreate 1; LCreate 2; LIdleEnter; LFinish 0; LArrive 0; LRecv 0; LRead 1; LArrive 1; LRecv 1;
+   LIdleExit; LConsume 1; LIdleEnter].
+
+Theorem deadlock_when_promise_has_two_chains :
+  exists p tr s, wf_items p = false /\ nodupb (all_inner p) = false /\ bfun_ok p /\
+                 run current p init tr = Some s /\ st_phase s = PTop /\ live p s 2 = true /\
+                 forall l, forced l = true -> step current p s l = None.
+Proof.
+  exists share_prog, share_trace. eexists.
+  split; [reflexivity|]. split; [reflexivity|]. split; [intros k l; simpl; apply map_length|].
+  split; [reflexivity|]. split; [reflexivity|]. split; [reflexivity|].
+  intros l F. destruct l as [w|w|w| |k its| |w|c|w|w| | |w| ]; try discriminate; try reflexivity.
+  all: try (destruct w as [|[|[|w]]]; reflexivity); try (destruct c as [|[|[|c]]]; reflexivity);
+       try (destruct its; reflexivity).
+Qed.
